@@ -32,7 +32,7 @@ ASSUMPTIONS = ['behaviour when close() itself raises, and non-string stream name
                'its base64 payload decodes to the map']
 BUDGET_S = {'quick': 60, 'thorough': 600}
 REQUIRED_HITS = ['io.write', 'io.read', 'fault_injected', 'close_checked', 'sourcemap.write', 'map_compared']
-FLOOR = {'quick': 300, 'thorough': 5000}
+FLOOR = {'quick': 300, 'thorough': 3000}
 
 PROGRAMS = ['var a = 1;', 'function f(x) { return x + 1; }\nf(2);', 'if (a) { b(); } else c = [1, , 2];',
             'var o = {k: "v", get g() { return 1; }};', 'for (var i = 0; i < 3; i++) s += i;\n// done\n']
